@@ -11,7 +11,7 @@ def write(mod, pid, tier, seed, st, wall, n_new, known):
     level = getattr(mod, "LEVEL", "model_checking")
     cov = {
         "evaluations": st.evaluations,
-        "distinct_nontrivial": len(st.nontrivial) if st.nontrivial else len(st.states),
+        "distinct_nontrivial": len(st.nontrivial) if st.nontrivial else len(st.states) + st.states_by_construction,
         "rule": getattr(mod, "RULE", ""),
         "samples": st.samples[:6],
         "exhaustive": not st.caps,
@@ -27,7 +27,7 @@ def write(mod, pid, tier, seed, st, wall, n_new, known):
         ],
     }
     if level == "model_checking":
-        cov["states"] = len(st.states)
+        cov["states"] = len(st.states) + st.states_by_construction
         cov["transitions"] = st.transitions
         cov["traces_validated_against_impl"] = st.validated
         cov["validation_note"] = (
